@@ -65,6 +65,9 @@ Proof.
   - destruct (to_nparr_jag c vs (jagO_nonopt c Hj Ho) Hl) as (r & E & _). exists r. split; [exact E|discriminate].
 Qed.
 
+Lemma osize_pos c : (1 <= osize c)%nat.
+Proof. unfold osize. destruct (is_option_node c); [lia|apply csize_pos]. Qed.
+
 (* PARTIAL (what remains excluded): ByteMasked / BitMasked / Unmasked nodes below the top node of an input; more than two
    arrays; apply on the two arrays as variable-length lists (equal lengths required, as in [model_refines_spec]). *)
 Theorem option_encodings_refine_spec_partial_lemma op fuel c1 c2 vs1 vs2 :
@@ -79,8 +82,7 @@ Proof.
       apply model_refines_spec_strong_lemma; try assumption; try (now apply jagO_nonopt). }
   destruct (jagO_type c1 H1) as (JT1 & OT1 & LT1). destruct (jagO_type c2 H2) as (JT2 & OT2 & LT2).
   unfold arr_arg. rewrite spec_row_LL by (try assumption; reflexivity). cbn [elemT].
-  assert (Hpos : forall c, (1 <= osize c)%nat) by (intros c; unfold osize; destruct (is_option_node c); [lia|apply csize_pos]).
-  destruct fuel as [|f]; [pose proof (Hpos c1); lia|].
+  destruct fuel as [|f]; [pose proof (osize_pos c1) as Hp1; clear - Hf Hp1; lia|].
   rewrite apply_S. unfold dispatch. cbn [contents_of flat_map app].
   pose proof (jagO_rcond c1 c2 H1 H2) as Hr. cbv zeta in Hr. cbv zeta. rewrite Hr.
   unfold checklength, all_eq. cbn [map forallb]. rewrite <- (to_list_len _ _ L1), <- (to_list_len _ _ L2).
